@@ -420,7 +420,10 @@ func (x *execCtx) describeBlocked() (detail, sig string) {
 		fmt.Fprintf(&sb, "%s %s; ", st, fn)
 		if fn != "" {
 			all[fn] = true
-			if !strings.Contains(st, "sync.Cond.Wait") {
+			// victims: whoever waits for a commit, for a mutex somebody else holds, or (the dispatcher) for a free slot
+			victim := strings.Contains(st, "sync.Cond.Wait") || strings.Contains(st, "sync.Mutex.Lock") ||
+				strings.HasSuffix(fn, "executionContext).Ready")
+			if !victim {
 				roots[fn] = true
 			}
 		}
